@@ -33,22 +33,23 @@ not resolve makes `layer(...)` raise `AttributeError`: D18, or a user deleting a
 monitor of the same registration reads) -/
 def NoAbort (s : State) : List Op → Prop
   | [] => True
-  | op :: ops => (op = .layerStep → (step s op).2 = .ok) ∧ NoAbort (step s op).1 ops
+  | op :: ops => (∀ l, op = .layerStep l → (step s op).2 = .ok) ∧ NoAbort (step s op).1 ops
 
 theorem exec_cons (s : State) (op : Op) (ops : List Op) : exec s (op :: ops) = exec (step s op).1 ops := rfl
 
 /-- Every reachable state satisfies the structural invariant `WF`: handle consistency, pool
 consistency ("registered iff the trainer is training"), and "every alive monitor is held by its
 alive owner's pool". -/
-theorem reachable_wf (topo : List (Nat × Nat)) (ops : List Op) : WF (exec (init topo) ops) :=
-  exec_wf topo ops
+theorem reachable_wf (topo : List (Nat × Nat × Nat)) (ops : List Op) (f : Bool := false) :
+    WF (exec (init topo f) ops) :=
+  exec_wf topo ops f
 
 theorem countOK_step {s : State} (w : WF s) (h : CountOK s) (op : Op)
-    (hok : op = .layerStep → (step s op).2 = .ok) : CountOK (step s op).1 := by
+    (hok : ∀ l, op = .layerStep l → (step s op).2 = .ok) : CountOK (step s op).1 := by
   apply countOK_gc
-  by_cases hop : op = .layerStep
-  · subst hop; exact countOK_layerStep w h (hok rfl)
-  · exact h.of_rel (rel_stepCore s op hop)
+  by_cases hop : ∃ l, op = .layerStep l
+  · obtain ⟨l, rfl⟩ := hop; exact countOK_layerStep w h l (hok l rfl)
+  · exact h.of_rel (rel_stepCore s op (fun l hl => hop ⟨l, hl⟩))
 
 theorem countOK_exec (ops : List Op) (s : State) (w : WF s) (h : CountOK s) (hn : NoAbort s ops) :
     CountOK (exec s ops) := by
@@ -63,16 +64,16 @@ every live trainer `T`, every cell name `n` it has registered and every monitor 
 it: the monitor object is alive, belongs to `T`, is registered with the layer exactly when `T`
 is in training mode, and its observation count equals the specification's count — the number of
 layer steps taken while `T.training ∧ layer.training` since `m` was created or last cleared. -/
-theorem one_obs_per_training_step (topo : List (Nat × Nat)) (ops : List Op)
-    (hn : NoAbort (init topo) ops) :
-    let s := exec (init topo) ops
+theorem one_obs_per_training_step (topo : List (Nat × Nat × Nat)) (ops : List Op) (f : Bool)
+    (hn : NoAbort (init topo f) ops) :
+    let s := exec (init topo f) ops
     ∀ t, (s.trainers t).alive = true → ∀ e ∈ namedMonitors (s.trainers t),
       (s.mons e.2).alive = true ∧ (s.mons e.2).owner = t ∧
       ((s.mons e.2).handle.isSome = (s.trainers t).training) ∧
       (s.mons e.2).count = (s.mons e.2).expected := by
   intro s t ht e he
-  have w : WF s := exec_wf topo ops
-  have hc : CountOK s := countOK_exec ops _ (init_wf topo) (by intro i hi; simp [init, noMonitor] at hi) hn
+  have w : WF s := exec_wf topo ops f
+  have hc : CountOK s := countOK_exec ops _ (init_wf topo f) (by intro i hi; simp [init, noMonitor] at hi) hn
   have hmem : e.2 ∈ poolMids (s.trainers t) := by
     simp only [namedMonitors, List.mem_flatMap, List.mem_map] at he
     obtain ⟨g, hg, x, hx, rfl⟩ := he
@@ -85,19 +86,24 @@ theorem one_obs_per_training_step (topo : List (Nat × Nat)) (ops : List Op)
 theorem gc_mons_of_live {s : State} {i : Nat} (h : live s i = true) : (gc s).mons i = s.mons i := by
   simp [gc, h]
 
-/-- a layer step adds one to the specification's count of an alive monitor exactly when its
-trainer and the layer are both in training mode -/
-theorem expected_layerStep {s : State} (w : WF s) (i : Nat) (hal : (s.mons i).alive = true) :
-    ((step s .layerStep).1.mons i).expected =
-      (s.mons i).expected + (if (s.trainers (s.mons i).owner).training = true ∧ s.layerTraining = true then 1 else 0) := by
+/-- a step of layer `l` adds one to the specification's count of an alive monitor exactly when the
+monitor belongs to `l` and its trainer and `l` are both in training mode -/
+theorem expected_layerStep {s : State} (w : WF s) (l i : Nat) (hal : (s.mons i).alive = true) :
+    ((step s (.layerStep l)).1.mons i).expected =
+      (s.mons i).expected + (if (s.trainers (s.mons i).owner).training = true ∧ s.layerTraining l = true ∧
+        (s.mons i).layer = l then 1 else 0) := by
   have hl := w.alive_live i hal
   have hl' := hl
   simp only [live, referenced, hal, Bool.true_and, Bool.and_eq_true, List.contains_iff_mem] at hl
   -- the ghost update
-  have hg : ((ghostStep s).mons i).expected =
-      (s.mons i).expected + (if (s.trainers (s.mons i).owner).training = true ∧ s.layerTraining = true then 1 else 0) := by
+  have hg : ((ghostStep s l).mons i).expected =
+      (s.mons i).expected + (if (s.trainers (s.mons i).owner).training = true ∧ s.layerTraining l = true ∧
+        (s.mons i).layer = l then 1 else 0) := by
     simp only [ghostStep, hal, hl.1, Bool.true_and]
-    cases (s.trainers (s.mons i).owner).training <;> cases s.layerTraining <;> simp [hl.2]
+    by_cases hlay : (s.mons i).layer = l
+    · cases (s.trainers (s.mons i).owner).training <;> cases s.layerTraining l <;> simp [hl.2, hlay]
+    · have : ((s.mons i).layer == l) = false := by simpa using hlay
+      cases (s.trainers (s.mons i).owner).training <;> cases s.layerTraining l <;> simp [hlay, this]
   have hfields : ∀ (s1 : State), (∀ j, (s1.mons j).alive = (s.mons j).alive ∧ (s1.mons j).owner = (s.mons j).owner) →
       s1.trainers = s.trainers → live s1 i = true := by
     intro s1 h1 h2
@@ -107,11 +113,11 @@ theorem expected_layerStep {s : State} (w : WF s) (i : Nat) (hal : (s.mons i).al
   split
   · rw [gc_mons_of_live]
     · exact hg
-    · apply hfields (ghostStep s) _ rfl
+    · apply hfields (ghostStep s l) _ rfl
       intro j; simp only [ghostStep]; split <;> exact ⟨rfl, rfl⟩
   · rw [gc_mons_of_live]
     · simp only [countStep]; split <;> exact hg
-    · apply hfields (countStep (ghostStep s) (ranHooks s)) _ rfl
+    · apply hfields (countStep (ghostStep s l) (ranHooks s l)) _ rfl
       intro j; simp only [countStep, ghostStep]; split <;> split <;> exact ⟨rfl, rfl⟩
 
 /-- `clear` resets count and specification count of every monitor of the trainer -/
@@ -127,7 +133,7 @@ theorem expected_clear {s : State} (w : WF s) (t : Nat) (ht : (s.trainers t).ali
 
 /-- every other operation leaves both counts of a monitor that survives it unchanged, and a
 monitor created by it starts at zero -/
-theorem expected_other (s : State) (op : Op) (hop : op ≠ .layerStep) (i : Nat)
+theorem expected_other (s : State) (op : Op) (hop : ∀ l, op ≠ .layerStep l) (i : Nat)
     (hal : ((step s op).1.mons i).alive = true) :
     (((step s op).1.mons i).expected = (s.mons i).expected ∧ ((step s op).1.mons i).count = (s.mons i).count) ∨
     (((step s op).1.mons i).expected = 0 ∧ ((step s op).1.mons i).count = 0) := by
@@ -219,7 +225,7 @@ theorem isolation_reads {s : State} (w : WF s) (op : Op) (t n : Nat) (h : addres
     simpa using mem_pool_of_lookup hlook.1 hs2
 
 /-- `isolation` along histories: it holds in every reachable state. -/
-theorem isolation_reachable (topo : List (Nat × Nat)) (ops : List Op) (op : Op) (t n : Nat)
+theorem isolation_reachable (topo : List (Nat × Nat × Nat)) (ops : List Op) (op : Op) (t n : Nat)
     (h : addressed op = some (t, n)) (t' n' : Nat) (hne : (t', n') ≠ (t, n))
     (hal' : ((exec (init topo) ops).trainers t').alive = true) (g : List (Nat × Nat))
     (hg : lookup ((exec (init topo) ops).trainers t').groups n' = some g) :
@@ -255,7 +261,7 @@ theorem nodup_eraseDups (l : List Nat) : l.eraseDups.Nodup := by
 * `monitors` lists each monitor object held by the pool exactly once and nothing else;
 * `cells` lists exactly the registered cells;
 * every listed monitor is alive, owned by this trainer and registered iff the trainer trains. -/
-theorem listings_exact (topo : List (Nat × Nat)) (ops : List Op) :
+theorem listings_exact (topo : List (Nat × Nat × Nat)) (ops : List Op) :
     let s := exec (init topo) ops
     ∀ t, (s.trainers t).alive = true →
       (∀ n m mid, ((n, m), mid) ∈ namedMonitors (s.trainers t) ↔
@@ -294,7 +300,7 @@ fields describe each other exactly: every entry has a fresh, unique id and belon
 monitor holding that id, whose (alive) trainer is in training mode and lists it; every handle a
 monitor holds is in the list; a monitor of a trainer in evaluation mode, a deleted monitor and a
 monitor of a dropped trainer have no handle. -/
-theorem no_dangling_handle (topo : List (Nat × Nat)) (ops : List Op) :
+theorem no_dangling_handle (topo : List (Nat × Nat × Nat)) (ops : List Op) :
     let s := exec (init topo) ops
     (∀ e ∈ s.post, e.1 < s.nextId ∧ (s.mons e.2).alive = true ∧ (s.mons e.2).handle = some e.1 ∧
       (s.trainers (s.mons e.2).owner).alive = true ∧ (s.trainers (s.mons e.2).owner).training = true ∧
@@ -352,7 +358,7 @@ theorem no_dangling_handle (topo : List (Nat × Nat)) (ops : List Op) :
 /-! ## D18: the exclusion that cannot be dropped (negation witnesses by `decide`) -/
 
 /-- two cells sharing the post-synaptic neuron -/
-def topo2 : List (Nat × Nat) := [(0, 0), (1, 0)]
+def topo2 : List (Nat × Nat × Nat) := [(0, 0, 0), (0, 1, 0)]
 
 /-- an eligibility-trace trainer registers cell 0, then a plain STDP trainer registers it too -/
 def d18prog : List Op := [.newTrainer 1, .newTrainer 0, .registerCell 0 0 0 0, .registerCell 1 0 0 0]
@@ -376,8 +382,8 @@ theorem second_trainer_redirects_eligibility :
 `cell.monitors` entries vanish, and the first trainer's next layer step raises — so `NoAbort`
 is a genuine hypothesis of `one_obs_per_training_step`. -/
 theorem second_trainer_breaks_layer_step :
-    (step (exec (init topo2) (d18prog ++ [.delCell 1 0])) .layerStep).2 = .err .AttributeError ∧
-    (step (exec (init topo2) (d18prog.take 3)) .layerStep).2 = .ok := by decide
+    (step (exec (init topo2) (d18prog ++ [.delCell 1 0])) (.layerStep 0)).2 = .err .AttributeError ∧
+    (step (exec (init topo2) (d18prog.take 3)) (.layerStep 0)).2 = .ok := by decide
 
 /-! ## Non-vacuity: concrete states meeting the hypotheses -/
 
@@ -389,14 +395,14 @@ example : (namedMonitors ((exec (init topo2) shared).trainers 0)).map (·.2) = [
 example : distinctMids ((exec (init topo2) shared).trainers 0) = [0, 1, 2, 3, 4, 5] := by decide
 example : (exec (init topo2) shared).post.length = 6 := by decide
 -- D17 (repaired): deleting the first cell keeps the shared monitors registered and recording
-example : (exec (init topo2) (shared ++ [.layerStep, .delCell 0 0, .layerStep])).post.length = 4 := by decide
-example : ((exec (init topo2) (shared ++ [.layerStep, .delCell 0 0, .layerStep])).mons 0).count = 2 := by decide
-example : ((exec (init topo2) (shared ++ [.layerStep, .delCell 0 0, .layerStep])).mons 0).expected = 2 := by decide
-example : NoAbort (init topo2) (shared ++ [.layerStep, .delCell 0 0, .layerStep]) := by
+example : (exec (init topo2) (shared ++ [.layerStep 0, .delCell 0 0, .layerStep 0])).post.length = 4 := by decide
+example : ((exec (init topo2) (shared ++ [.layerStep 0, .delCell 0 0, .layerStep 0])).mons 0).count = 2 := by decide
+example : ((exec (init topo2) (shared ++ [.layerStep 0, .delCell 0 0, .layerStep 0])).mons 0).expected = 2 := by decide
+example : NoAbort (init topo2) (shared ++ [.layerStep 0, .delCell 0 0, .layerStep 0]) := by
   simp only [NoAbort, shared, List.cons_append, List.nil_append]; decide
 -- evaluation mode: nothing is recorded, by count and by specification
-example : ((exec (init topo2) (shared ++ [.trainerTrain 0 false, .layerStep])).mons 0).count = 0 := by decide
-example : (exec (init topo2) (shared ++ [.trainerTrain 0 false, .layerStep])).post = [] := by decide
+example : ((exec (init topo2) (shared ++ [.trainerTrain 0 false, .layerStep 0])).mons 0).count = 0 := by decide
+example : (exec (init topo2) (shared ++ [.trainerTrain 0 false, .layerStep 0])).post = [] := by decide
 example : addressed (.delCell 0 0) = some (0, 0) := rfl
 
 end InfernoVerif.Lifecycle
